@@ -24,8 +24,12 @@ META = {
         'nan_to_num, flatten/filter with a predicate that rejects XlError) '
         'without a dominating error check, and every position skipped by a '
         'custom check_error is a documented handler/inspector position or is '
-        'checked by the core; (table) unknown function names resolve to '
-        'not_implemented.'),
+        'checked by the core; (unused) every whole-argument function '
+        '(registered without the element-wise wrapper, or installed as a node '
+        'of a dispatcher built in formulas/functions) looks at each of its '
+        'arguments on every path that returns a non-error value - an `is '
+        'None` test does not count, a None argument is not an error; (table) '
+        'unknown function names resolve to not_implemented.'),
     'not_decided': (
         'That the returned value is a well-formed Excel value for every '
         'argument kind, which error code is produced, and exceptions raised '
@@ -971,8 +975,188 @@ def rule_table(ctx):
     return rr
 
 
+# -- arguments ignored on a value-returning path -----------------------------------
+def _none_test(e):
+    """(name, true_means_none) for `p is None` / `p is not None`."""
+    if isinstance(e, ast.Compare) and len(e.ops) == 1 and isinstance(
+            e.left, ast.Name) and isinstance(e.comparators[0], ast.Constant) \
+            and e.comparators[0].value is None:
+        if isinstance(e.ops[0], ast.Is):
+            return e.left.id, True
+        if isinstance(e.ops[0], ast.IsNot):
+            return e.left.id, False
+    return None
+
+
+def _value_uses(exprs, names):
+    """Names whose *value* the expressions look at (an identity test against
+    None tells nothing about an error value)."""
+    skip, used = set(), set()
+    for e in exprs:
+        for n in ast.walk(e):
+            if _none_test(n):
+                skip.add(id(n.left))
+    for e in exprs:
+        for n in ast.walk(e):
+            if isinstance(n, ast.Name) and isinstance(n.ctx, ast.Load) and \
+                    n.id in names and id(n) not in skip:
+                used.add(n.id)
+    return used
+
+
+def ignored_arguments(ctx, f, names):
+    """[(return node, [names])]: paths on which f returns a value that is not
+    an error while the listed parameters have neither been looked at nor been
+    found to be None."""
+    from ..cfg import ByLabel, stmt_exprs
+    names = set(names)
+    if not names:
+        return []
+    cfg = CFG(f)
+
+    def transfer(cn, st):
+        ex = [e for e in stmt_exprs(cn)]
+        roots = []
+        for e in ex:
+            if isinstance(e, (ast.FunctionDef, ast.AsyncFunctionDef)):
+                roots += list(ast.walk(e))  # a closure over the parameter
+            else:
+                roots.append(e)
+        out = frozenset(st - _value_uses(roots, names))
+        for e in roots:
+            for n in ast.walk(e):
+                if isinstance(n, ast.Name) and isinstance(n.ctx, ast.Store) \
+                        and n.id in names:
+                    out = out - {n.id}
+        if cn.kind == 'test':
+            nt = _none_test(cn.ast)
+            if nt and nt[0] in names:
+                p, on_true = nt
+                return ByLabel({None: out,
+                                'true': out - {p} if on_true else out,
+                                'false': out if on_true else out - {p}})
+        return out
+
+    IN = cfg.forward(frozenset(names), transfer, lambda a, b: a | b)
+    dom = None
+    res = []
+    for cn in cfg.nodes:
+        if cn.kind != 'return' or cn.id not in IN:
+            continue
+        v = cn.ast.value
+        pend = IN[cn.id] - (_value_uses([v], names) if v is not None else set())
+        if not pend:
+            continue
+        t = norm_src(v) if v is not None else 'None'
+        if 'errors[' in t or 'get_error(' in t:
+            continue  # an error is returned
+        if isinstance(v, ast.Name):
+            # `if isinstance(x, XlError): return x`
+            dom = dom or cfg.dominators()
+            guarded = False
+            for tn in cfg.nodes:
+                if tn.kind == 'test' and isinstance(tn.ast, ast.Call) and \
+                        call_name(tn.ast) == 'isinstance' and tn.ast.args and \
+                        norm_src(tn.ast.args[0]) == v.id and \
+                        'XlError' in norm_src(tn.ast.args[1]):
+                    for s_, lab in tn.succ:
+                        if lab == 'true' and (s_ is cn or cfg.dominates(
+                                s_, cn, dom)):
+                            guarded = True
+            if guarded:
+                continue
+        res.append((cn.ast, sorted(pend)))
+    return res
+
+
+def _node_functions(ctx):
+    """(function, number of dispatcher inputs, site) for functions installed as
+    nodes of dispatchers built inside formulas/functions/*."""
+    out = []
+    for f in ctx.project.functions.values():
+        if not f.module.rel.startswith('formulas/functions/'):
+            continue
+        for n in own_nodes(f):
+            if not (isinstance(n, ast.Call) and call_name(n) == 'add_function'):
+                continue
+            fe = kwarg(n, 'function') or (n.args[1] if len(n.args) > 1 else None)
+            inp = kwarg(n, 'inputs') or (n.args[2] if len(n.args) > 2 else None)
+            if fe is None or not isinstance(inp, (ast.List, ast.Tuple)):
+                continue
+            nb = 0
+            if isinstance(fe, ast.Call) and ctx.cg.resolve_name_expr(
+                    f, fe.func) == ('ext', 'functools.partial') and fe.args:
+                nb = len(fe.args) - 1
+                fe = fe.args[0]
+            r = ctx.cg.resolve_name_expr(f, fe) if isinstance(
+                fe, (ast.Name, ast.Attribute)) else None
+            if r and r[0] == 'func':
+                out.append((r[1], nb, len(inp.elts), '%s:%d' % (
+                    f.module.rel, n.lineno)))
+    return out
+
+
+def rule_errkeep_unused(ctx):
+    R = ctx.registry
+    pol = ctx.spec('error_policy')
+    may, lazy = pol['may_not_propagate'], pol.get('lazy', {})
+    prefixes = pol['alias_prefixes']
+    rr = RuleResult('C11', 'C11.errkeep.unused', 'MPT',
+                    'a function that receives its arguments unchecked looks '
+                    'at each of them on every path that returns a value',
+                    floor=40)
+    subjects = {}
+    for reg in R.functions.values():
+        core = reg.core
+        if reg.has('wrap_ufunc') or core.kind != 'func':
+            continue  # wrap_ufunc checks the arguments before calling the core
+        cf = core.fi
+        nb = len(core.bound_args)
+        base = reg.name
+        for pre in sorted(prefixes, key=len, reverse=True):
+            if base.startswith(pre):
+                base = base[len(pre):]
+                break
+        allowed = PosSet()
+        for tab in (may, lazy):
+            if base in tab and isinstance(tab[base], dict) and \
+                    'positions' in tab[base]:
+                allowed = PosSet.from_spec(tab[base]['positions'])
+        names = [p_ for i, p_ in enumerate(cf.params[nb:])
+                 if p_ not in core.bound_kw and
+                 not PosSet(fixed=[i]).issubset(allowed)]
+        if cf.cls is not None:
+            continue
+        key = (cf.fq, tuple(names))
+        subjects.setdefault(key, (cf, names, reg.key, reg.site))
+    for g, nb, nin, site in _node_functions(ctx):
+        names = g.params[nb:nb + nin]
+        key = (g.fq, tuple(names))
+        subjects.setdefault(key, (g, names, 'dispatcher node', site))
+    for (fq, _n), (g, names, role, site) in sorted(subjects.items()):
+        rr.instances += 1
+        bad = ignored_arguments(ctx, g, names)
+        if not bad:
+            rr.ok('%s (%s): every path that returns a value has looked at %s' % (
+                g.qualname, role, ', '.join(names) or 'no argument'), site,
+                nontrivial=len(names) > 1)
+            continue
+        ret, pend = bad[0]
+        rr.fail(key_of(g, 'argument %s ignored on a value-returning path' %
+                       ','.join(pend)),
+                '%s (%s) returns `%s` at line %d on a path that has not looked '
+                'at its argument%s %s (other than an `is None` test): nothing '
+                'checks the arguments of this function before it runs, so an '
+                'error value passed there is silently lost' % (
+                    g.qualname, role, norm_src(ret.value)[:50] if ret.value
+                    is not None else 'None', ret.lineno,
+                    's' if len(pend) > 1 else '', ', '.join(pend)),
+                file=g.module.rel, function=g.qualname, line=ret.lineno)
+    return rr
+
+
 def run(ctx):
     ef = ErrFlow(ctx)
     return [rule_total(ctx), rule_catch(ctx), rule_finite(ctx),
             rule_errkeep_ufunc(ctx, ef), rule_errkeep_sinks(ctx, ef),
-            rule_table(ctx)]
+            rule_errkeep_unused(ctx), rule_table(ctx)]
